@@ -13,11 +13,14 @@ import random
 
 from . import common
 
-MODULES = ["CoapVerif.Props.C12", "CoapVerif.Props.C12Paths", "CoapVerif.Props.C12PrepareWrite"]
+MODULES = ["CoapVerif.Props.C12", "CoapVerif.Props.C12Paths", "CoapVerif.Props.C12PrepareWrite", "CoapVerif.Props.C12Stale",
+           "CoapVerif.Props.C12Storage"]
 
 
 PATHS_OBS = ["basic", "cancelcb", "hijack", "getreq"]
-PATHS_BW = ["doupload", "doabort", "download", "upload", "sweepappend", "bwresponse", "bwnotify", "write", "obsblock"]
+PATHS_BW = ["doupload", "doabort", "download", "upload", "sweepappend", "bwresponse", "bwnotify", "write", "obsblock",
+            # a new exchange under the token of a sending entry that has expired but is not swept yet (Model/OwnershipStale.lean)
+            "staleresp", "staledo", "stalewrite"]
 
 
 def scenarios(ctx):
@@ -42,6 +45,17 @@ def scenarios(ctx):
     S.append("scn udp bwwritedup 3")
     for k in ["ok", "silent", "refused"]:
         S.append("scn tcp do " + k)
+    # encoded messages at and beyond the 16-bit boundary (a legal frame on tcp: 65536 bytes with the default MaxMessageSize, more
+    # once it is raised): the decoded message is its holder's own - as a request inside its handler and as a response the
+    # caller of Get holds while the peer's pipelined frames go on arriving; and directly: decode, then the memory the bytes
+    # arrived in is used for the next message.  65804/65805: the extended-length boundary of the tcp framing
+    big = [65535, 65536, 65537, 65804, 65805, 1 << 17] + ([200000, (1 << 20) - 1] if thorough else [])
+    for n in big:
+        for role in ["req", "resp"]:
+            S.append("scn tcp jumbo %d %s" % (n, role))
+    for n in [1024, 1025] + big + ([1 << 20, (1 << 24) + 1] if thorough else []):
+        for c in ["tcp", "udp"]:
+            S.append("scn pool decode %s %d" % (c, n))
     for n in [0, 1, 3, 6]:
         S.append("scn udp observe %d" % n)
     for n in ([0, 1, 15, 16, 17, 32, 33, 100, 400] if thorough else [0, 16, 17, 40]):
@@ -162,7 +176,9 @@ def explore(ctx, art):
                        "for the block-wise layer) and block-wise paths (Do upload / abandoned mid-transfer / download, reassembly with an expiry "
                        "sweep during the append, response in blocks, block-wise notification both ways, WriteMessage) over a tracking pool, "
                        "compared step by step with the path programs; request bodies that fail on Read (at once, after k bytes) or on the k-th Seek, "
-                       "confirmable / non-confirmable, Post / Do / WriteMessage, block-wise off and on, one and several blocks. evaluations = lifecycle events checked; non-trivial trace = contains an application hold and a release; "
+                       "confirmable / non-confirmable, Post / Do / WriteMessage, block-wise off and on, one and several blocks; a new response / Do / WriteMessage under the token of a sending "
+                       "entry that expired and was not swept (pooled messages carry a body that reports every access); tcp frames of 65535, 65536, 65537, 65804, 65805, 2^17 (thorough: 200000, 2^20-1) bytes "
+                       "held inside a handler / after Get while pipelined frames arrive, and decoded messages of those sizes whose source memory is overwritten. evaluations = lifecycle events checked; non-trivial trace = contains an application hold and a release; "
                        "distinct by the exact trace." % (3 if ctx.tier == "thorough" else 2))
     for l, o in list(zip(lines, impl))[:2]:
         ctx.sample({"scenario": l, "trace": o[:400]})
